@@ -11,14 +11,14 @@ from spv.harness import Harness, result
 
 META = {
     "level": "model_checking",
-    "claim": "For every buffer content of 1..8 bytes (thorough: 1..16) and every cursor/width pair inside the buffer, z3 proves that the real "
+    "claim": "For every buffer content of 1..10 bytes (thorough: 1..16) and every cursor/width pair inside the buffer, z3 proves that the real "
              "read_as_int/read_as_bytes/_extract_bits return the per-bit specified value, advance the cursor by the width and leave the buffer "
              "unchanged; additionally with cursor and width themselves symbolic on 4 (thorough 6, 8) byte buffers. Bounded model checking "
              "of the real code: all bit patterns are covered by the solver, buffer sizes beyond the bound are not.",
     "trusted": "z3; the BV proxies for int/bytes (cross-validated on every path against the unpatched library in a separate process); "
                "CPython's int.from_bytes/to_bytes and slicing as modelled",
     "bounds": {
-        "quick": {"A": "buffers 1..8 bytes, every (p, n) with p+n <= 8*len, n = 0 included (all contents symbolic)",
+        "quick": {"A": "buffers 1..10 bytes, every (p, n) with p+n <= 8*len, n = 0 included (all contents symbolic)",
                   "B": "buffer 4 bytes, p and n symbolic with p+n <= 32"},
         "thorough": {"A": "buffers 1..16 bytes, every (p, n)", "B": "buffers of 6 and 8 bytes, p and n symbolic"},
     },
@@ -155,7 +155,7 @@ def make(job):
 
 def jobs(tier):
     out = []
-    maxL = 8 if tier == "quick" else 16
+    maxL = 10 if tier == "quick" else 16
     for L in range(1, maxL + 1):
         out.append({"name": f"A-L{L}", "h": "A", "params": {"L": L}, "must_reach": ["ok"]})
     for L in ([4] if tier == "quick" else [6, 8]):
